@@ -343,6 +343,12 @@ func c13CheckEmitted(c c13Emit) engine.Result {
 				rest = rest[k:]
 			}
 			pids := c06PIDList(&sec)
+			if c.Seed >= 4 {
+				// the same with a WRONG CRC_32 in the input table (nothing in the library checks it): what the filter
+				// emits must carry a right one all the same, also when every stream is kept
+				last := pkts[(len(payload)-1)/184]
+				last[4+(len(payload)-1)%184] ^= 0x5A
+			}
 			for k := 1; k <= n; k++ {
 				out, _ := psi.FilterPMTPacketsToPids(pkts, pids[:k])
 				var pay []byte
@@ -505,7 +511,7 @@ func init() {
 			},
 			&engine.Enum[c13Emit]{
 				Name: "emitted-sections",
-				Rule: "every captured/constructed SCTE-35 section of the seed pool decoded and re-encoded with two tier values x alignment stuffing {0,1,4}, SCTE-35 sections with section_length 900..4093 (around every multiple of 1024; every SCTE-35 section is also delimited by its own 12-bit section_length the way a receiver does, and that part must be everything emitted and have a zero residue), every PMT of the seed pool filtered to each prefix of its PID list under 5 packetisations, and tables of 60, 110, 150 and 200 descriptor-less streams (pointer_field 0 and 7; section_length 313, 563, 763, 1013, so that every pair of high length bits before/after filtering occurs) filtered to their first k streams for every k: the reference CRC of every emitted section must be zero (the exhaustive versions of this clause live in C09 and C14)",
+				Rule: "every captured/constructed SCTE-35 section of the seed pool decoded and re-encoded with two tier values x alignment stuffing {0,1,4}, SCTE-35 sections with section_length 900..4093 (around every multiple of 1024; every SCTE-35 section is also delimited by its own 12-bit section_length the way a receiver does, and that part must be everything emitted and have a zero residue), every PMT of the seed pool filtered to each prefix of its PID list under 5 packetisations, and tables of 60, 110, 150 and 200 descriptor-less streams (pointer_field 0 and 7; section_length 313, 563, 763, 1013, so that every pair of high length bits before/after filtering occurs; the pointer_field 7 variants carry a corrupted CRC_32 in the input, and k runs up to ALL streams) filtered to their first k streams for every k: the reference CRC of every emitted section must be zero (the exhaustive versions of this clause live in C09 and C14)",
 				Gen: func(r *engine.Run, emit func(c13Emit)) {
 					for i := range c05SeedPools["scte35"] {
 						emit(c13Emit{"scte35", i})
